@@ -34,6 +34,14 @@ Theorem C04_unpack_instr_pack : forall C lam, codec_ok C -> forall t v bs,
 Proof. exact unpack_instr_pack. Qed.
 Print Assumptions C04_unpack_instr_pack.
 
+(* consequently PACK is injective on the values of a type *)
+Theorem C04_pack_injective : forall C lam, codec_ok C -> forall t v1 v2 bs,
+  has_type lam t v1 = true -> has_type lam t v2 = true ->
+  wf_node (to_mich C Optimized v1) -> wf_node (to_mich C Optimized v2) ->
+  pack C t v1 = Ok bs -> pack C t v2 = Ok bs -> v1 = v2.
+Proof. exact pack_injective. Qed.
+Print Assumptions C04_pack_injective.
+
 (* PACK is defined exactly on packable types, and is 0x05 followed by the binary Micheline of the
    optimized tree; that tree is a word of the grammar *)
 Theorem C04_pack_bytes : forall C t v,
